@@ -69,11 +69,11 @@ func c16ValOK(v string) bool {
 
 func init() {
 	register(&Prop{ID: "C16", Run: c16Run,
-		Rule: "key sets built from a pool of 14 path-safe segments, several of which are proper string prefixes of others (a, ab, abc, a1, a-b, k, k1 …; the same pool at every level, so that sibling segments related by string prefix but not by dotted prefix are frequent), 1-4 segments per key, 0-8 keys; three streams: prefix-free sets (conflicting keys removed), sets with deliberately added dotted prefixes / extensions of present keys, unconstrained sets; values from a pool of strings over [A-Za-z0-9_.-] incl. the empty string, and in one case out of three also values over [A-Za-z0-9_.${}-] shaped like placeholder expressions: ${key} naming the own key, another key of the set, an undefined key, rings of keys naming each other, nested and repeated ${…}, unclosed ${, and stray $ { } characters; in one case out of three also values as TEXT: ending in a blank or tab, with inner blanks / tabs / NBSP, differing from another value by case or a trailing blank only, boolean / null / number spellings incl. 20-30 digit strings and 2^53+1 / 2^63 / 2^64, punctuation that is syntax elsewhere (, ; / | % ( ) [ ]), non-ASCII incl. supplementary-plane characters and U+FFFD; line order of the rendered text shuffled. Kind dots (repeated-decode clause only, 'whatever the keys'): such a set plus 1-3 keys with a leading / trailing / doubled separator (k. .k .k. a..b ..k k.. and the keys . .. ...), most of them next to the same key without the stray separator and with a different value; 50 decodes through FromReader (observed through Children and AsMap, not Flatten) and 50 through props.DecoderFn alone must give one result. Kind big (direct predicates only, a fixed handful per run): prefix-free sets described compactly as blocks of pairs b<i>.s<j mod 41>.k<j> = <j>_<i>_padding with a common value length, rendered text between 64 KiB and 6 MiB per run (one below 1 MiB, one of 1.1-2.6 MiB and one of 4.2-6 MiB with tens of thousands of ordinary pairs, one with a few lines longer than 64 KiB each), decoded through FromReader from a strings.Reader, from a plain io.Reader handing out 4093-byte pieces and with the provider's decoder, through props.DecoderFn alone, FromProperties, Unflatten, and written by both encoders and read back - every result compared pair by pair with the set. Stream deep (kind kv): key sets shaped like a deep tree - a first key of 4-10 segments and 1-7 further keys, each keeping a prefix of an earlier key (often all but its last 1-3 segments) and continuing with 1-4 segments of its own, so that containers at depth 3, 5, 6, 7 and 9 have several sibling containers and leaves; 3 in 4 prefix-free. Kind edge (direct predicates only, about 90 per run): texts in which an ASCII, 2-, 3- or 4-byte UTF-8 character of a plain value (non-ASCII letters and symbols need no escaping) starts 0 ... len+2 bytes before byte offset 512 / 4 KiB / 64 KiB (every placement: starting at, lying across, ending at the offset, followed by the line end at it), lies across 1 MiB, every other power of two from 256 B to 512 KiB, 4093, 8186, 65521 and a few round numbers; with nothing after that pair (total text size = offset -1 / +0 / +1) or further pairs after it; filler values with or without non-ASCII characters; same predicates as kind big. Kind form (direct predicates only, about 500 per run): a kv-style set (at least one key below a container), handed to the decoder the ways a caller can hand over properties text, three aspects varied independently in about half of the cases each - LAYOUT of the text (last line without a line end, CR LF line ends, with and without the final one, `k = v`, `k:v`, `k v`, indented keys, comment and blank lines in front of / between / behind the pairs); READER and its POSITION (strings.Reader, bytes.Reader, *os.File, bufio.Reader, a plain io.Reader handing out 7-byte pieces; the text preceded in the same reader by a preamble the caller has already read: an envelope line, a length prefix, a byte-order mark, a piece of a line, or an earlier properties document some of whose keys are keys of the set); what the CALLER DOES with the map a decode gave it before the same text is decoded again (values overwritten, the first entry deleted, entries added, everything deleted, nested maps replaced by a string - at the top and in every nested map); 6 decodes through props.DecoderFn / the provider's decoder and 6 through FromReader, interleaved with the caller's edits: prefix-free sets must flatten to exactly the pairs, every set must decode to one result in all runs and to the same result as the text from a fresh strings.Reader. History: in kinds kv / big / edge every decode is preceded by a decode of an unrelated text whose reader fails after 0 / 3 / 700 bytes and every encode by encodes of an unrelated map / document whose writer fails after 0 / 3 / 17 / 40 bytes; Flatten is called twice on one document and the earlier result is read again after the later call. Thorough tier adds all 128 subsets of {a, b, a.b, a.c, a.b.c, b.a, a.b.c.d} and of {a.b, a.b.x, a.bc, a-b.x, a1, ab.x, abc} in two line orders. A case is non-trivial when it has at least two keys and at least one key with two or more segments; distinct = distinct canonical case JSON (hash).",
+		Rule: "key sets built from a pool of 14 path-safe segments, several of which are proper string prefixes of others (a, ab, abc, a1, a-b, k, k1 …; the same pool at every level, so that sibling segments related by string prefix but not by dotted prefix are frequent), 1-4 segments per key, 0-8 keys; three streams: prefix-free sets (conflicting keys removed), sets with deliberately added dotted prefixes / extensions of present keys, unconstrained sets; values from a pool of strings over [A-Za-z0-9_.-] incl. the empty string, and in one case out of three also values over [A-Za-z0-9_.${}-] shaped like placeholder expressions: ${key} naming the own key, another key of the set, an undefined key, rings of keys naming each other, nested and repeated ${…}, unclosed ${, and stray $ { } characters; in one case out of three also values as TEXT: ending in a blank or tab, with inner blanks / tabs / NBSP, differing from another value by case or a trailing blank only, boolean / null / number spellings incl. 20-30 digit strings and 2^53+1 / 2^63 / 2^64, punctuation that is syntax elsewhere (, ; / | % ( ) [ ]), non-ASCII incl. supplementary-plane characters and U+FFFD; line order of the rendered text shuffled. Kind dots (repeated-decode clause only, 'whatever the keys'): such a set plus 1-3 keys with a leading / trailing / doubled separator (k. .k .k. a..b ..k k.. and the keys . .. ...), most of them next to the same key without the stray separator and with a different value; 50 decodes through FromReader (observed through Children and AsMap, not Flatten) and 50 through props.DecoderFn alone must give one result. Kind big (direct predicates only, a fixed handful per run): prefix-free sets described compactly as blocks of pairs b<i>.s<j mod 41>.k<j> = <j>_<i>_padding with a common value length, rendered text between 64 KiB and 6 MiB per run (one below 1 MiB, one of 1.1-2.6 MiB and one of 4.2-6 MiB with tens of thousands of ordinary pairs, one with a few lines longer than 64 KiB each; two more of 70-400 KiB with 1-2 lines of 65-200 KiB standing between about 20 ordinary pairs x.e<i>.<seg> whose values are TEXT - words and blanks that spell what is syntax in the formats next door: shell env files, ini sections, YAML, SQL, XML - some in front of the long lines and some behind them), decoded through FromReader from a strings.Reader, from a plain io.Reader handing out 4093-byte pieces and with the provider's decoder, through props.DecoderFn alone, FromProperties, Unflatten, and written by both encoders and read back - every result compared pair by pair with the set. Stream deep (kind kv): key sets shaped like a deep tree - a first key of 4-10 segments and 1-7 further keys, each keeping a prefix of an earlier key (often all but its last 1-3 segments) and continuing with 1-4 segments of its own, so that containers at depth 3, 5, 6, 7 and 9 have several sibling containers and leaves; 3 in 4 prefix-free. Kind edge (direct predicates only, about 90 per run): texts in which an ASCII, 2-, 3- or 4-byte UTF-8 character of a plain value (non-ASCII letters and symbols need no escaping) starts 0 ... len+2 bytes before byte offset 512 / 4 KiB / 64 KiB (every placement: starting at, lying across, ending at the offset, followed by the line end at it), lies across 1 MiB, every other power of two from 256 B to 512 KiB, 4093, 8186, 65521 and a few round numbers; with nothing after that pair (total text size = offset -1 / +0 / +1) or further pairs after it; filler values with or without non-ASCII characters; same predicates as kind big. Kind form (direct predicates only, about 500 per run): a kv-style set (at least one key below a container), handed to the decoder the ways a caller can hand over properties text, three aspects varied independently in about half of the cases each - LAYOUT of the text (last line without a line end, CR LF line ends, with and without the final one, `k = v`, `k:v`, `k v`, indented keys, comment and blank lines in front of / between / behind the pairs); READER and its POSITION (strings.Reader, bytes.Reader, *os.File, bufio.Reader, a plain io.Reader handing out 7-byte pieces; the text preceded in the same reader by a preamble the caller has already read: an envelope line, a length prefix, a byte-order mark, a piece of a line, or an earlier properties document some of whose keys are keys of the set); what the CALLER DOES with the map a decode gave it before the same text is decoded again (values overwritten, the first entry deleted, entries added, everything deleted, nested maps replaced by a string - at the top and in every nested map); 6 decodes through props.DecoderFn / the provider's decoder and 6 through FromReader, interleaved with the caller's edits: prefix-free sets must flatten to exactly the pairs, every set must decode to one result in all runs and to the same result as the text from a fresh strings.Reader. History: in kinds kv / big / edge every decode is preceded by a decode of an unrelated text whose reader fails after 0 / 3 / 700 bytes and every encode by encodes of an unrelated map / document whose writer fails after 0 / 3 / 17 / 40 bytes; Flatten is called twice on one document and the earlier result is read again after the later call. Thorough tier adds all 128 subsets of {a, b, a.b, a.c, a.b.c, b.a, a.b.c.d} and of {a.b, a.b.x, a.bc, a-b.x, a1, ab.x, abc} in two line orders. A case is non-trivial when it has at least two keys and at least one key with two or more segments; distinct = distinct canonical case JSON (hash).",
 		Assumptions: []string{
 			"magiconair/properties agrees with the reference k=v line parser (Props.parseSimple) on keys over [A-Za-z0-9_.-] and values over [A-Za-z0-9_.${}-]* extended by blanks / tabs / NBSP behind the first character, the punctuation , ; / @ + * ( ) [ ] | ~ % & ? < > ' \" ^ and non-ASCII letters and symbols — raw values as returned by Map(), whatever its ${…} expansion self-check says (validated by the corr:C16.parse comparison on every case, not proved)",
 			"key segments are non-empty and over [A-Za-z0-9_-] (no segment ends in an index group, so AddValueAt treats every segment as a plain child name); empty segments (stray separators) occur only in the cases of kind dots, on which nothing but the repeated-decode clause is evaluated",
-			"values are plain strings that need no escaping in the properties format: no backslash, no line break, no '=' ':' '#' '!', no blank in FRONT (blanks and tabs inside and at the END of a value are part of it and need no escaping); kinds dots / big keep them over [A-Za-z0-9_.${}-], kind kv adds inner / trailing blanks, tabs and NBSP, some punctuation and non-ASCII letters and symbols, kind edge adds non-ASCII letters and symbols, written as UTF-8"}})
+			"values are plain strings that need no escaping in the properties format: no backslash, no line break, no '=' ':' '#' '!', no blank in FRONT (blanks and tabs inside and at the END of a value are part of it and need no escaping); kinds dots / big keep them over [A-Za-z0-9_.${}-] (the ordinary pairs of a big case: words, inner / trailing blanks and the punctuation below), kind kv adds inner / trailing blanks, tabs and NBSP, some punctuation and non-ASCII letters and symbols, kind edge adds non-ASCII letters and symbols, written as UTF-8"}})
 	evals["C16"] = c16Eval
 	shrinkers["C16"] = c16Shrink
 }
